@@ -230,44 +230,56 @@ def ofClient (c : Str) (l : List (Str × Sub)) : List (Str × Sub) := l.filter (
 def nodeOfClient (c : Str) (n : Node) : List (Str × Sub) :=
   ((AL.get c n.clients).toList ++ n.shared.filterMap (fun g => AL.get c g.2)).map (fun s => (c, s))
 
+/-- `MatchName` branch of `iterateNonShared` -/
+def nameNonShared (o : Opts) (t : TTrie) : List (Str × Sub) :=
+  match find t o.topic with
+  | none => []
+  | some n => if o.client ≠ [] then nodeOfClient o.client n else setRs n
+
+/-- per-client listing of `iterateNonShared`: `for _, v := range index[c] { fn(c, v.clients[c]) }` (node pointer = node at
+    the key's path; a missing entry — Go would hand `nil` to the callback — is skipped, see header) -/
+def listNonShared (c : Str) (index : Index) (t : TTrie) : List (Str × Sub) :=
+  ((AL.get c index).getD []).filterMap (fun key =>
+    match Trie.at? (splitLevels key) t with
+    | some n => (AL.get c n.payload.clients).map (fun s => (c, s))
+    | none => none)
+
 /-- `iterateNonShared` (callback always continues) -/
 def iterateNonShared (o : Opts) (index : Index) (t : TTrie) : List (Str × Sub) :=
-  if o.topic ≠ [] && o.matchType = 1 then
-    match find t o.topic with
-    | none => []
-    | some n => if o.client ≠ [] then nodeOfClient o.client n else setRs n
+  if o.topic ≠ [] && o.matchType = 1 then nameNonShared o t
   else if o.topic ≠ [] && o.matchType = 2 then
     let rs := getMatched t o.topic
     if o.client ≠ [] then ofClient o.client rs else rs
-  else if o.client ≠ [] then
-    ((AL.get o.client index).getD []).filterMap (fun key =>
-      match Trie.at? (splitLevels key) t with
-      | some n => (AL.get o.client n.payload.clients).map (fun s => (o.client, s))
-      | none => none)
+  else if o.client ≠ [] then listNonShared o.client index t
   else traverse t
+
+/-- `MatchName` branch of `iterateShared` (with the fixed length check) -/
+def nameShared (o : Opts) (t : TTrie) : List (Str × Sub) :=
+  if hasPrefix o.topic sharePrefix then
+    match cut '/' (o.topic.drop 7) with
+    | (g, some f) =>
+      match find t f with
+      | none => []
+      | some n =>
+        let cl := (AL.get g n.shared).getD []
+        if o.client ≠ [] then ((AL.get o.client cl).toList.map (fun s => (o.client, s))) else cl
+    | (_, none) => []       -- fixed code: `if len(shared) < 3 { return true }` (the unchanged code panics here)
+  else []
+
+/-- per-client listing of `iterateShared` (fixed: the entry of the index key's own group) -/
+def listShared (c : Str) (index : Index) (t : TTrie) : List (Str × Sub) :=
+  ((AL.get c index).getD []).filterMap (fun key =>
+    match Trie.at? (splitLevels (keyParts .shared key).2) t with
+    | some n => (AL.get c ((AL.get (keyParts .shared key).1 n.payload.shared).getD [])).map (fun s => (c, s))
+    | none => none)
 
 /-- `iterateShared` (fixed per-client listing, fixed length check in the `MatchName` branch) -/
 def iterateShared (o : Opts) (index : Index) (t : TTrie) : List (Str × Sub) :=
-  if o.topic ≠ [] && o.matchType = 1 then
-    if hasPrefix o.topic sharePrefix then
-      match cut '/' (o.topic.drop 7) with
-      | (g, some f) =>
-        match find t f with
-        | none => []
-        | some n =>
-          let cl := (AL.get g n.shared).getD []
-          if o.client ≠ [] then ((AL.get o.client cl).toList.map (fun s => (o.client, s))) else cl
-      | (_, none) => []       -- fixed code: `if len(shared) < 3 { return true }` (the unchanged code panics here)
-    else []
+  if o.topic ≠ [] && o.matchType = 1 then nameShared o t
   else if o.topic ≠ [] && o.matchType = 2 then
     let rs := getMatched t o.topic
     if o.client ≠ [] then ofClient o.client rs else rs
-  else if o.client ≠ [] then
-    ((AL.get o.client index).getD []).filterMap (fun key =>
-      let p := keyParts .shared key
-      match Trie.at? (splitLevels p.2) t with
-      | some n => (AL.get o.client ((AL.get p.1 n.payload.shared).getD [])).map (fun s => (o.client, s))
-      | none => none)
+  else if o.client ≠ [] then listShared o.client index t
   else traverse t
 
 /-- `IterateLocked` with a callback that never stops -/
